@@ -245,6 +245,13 @@ func (c *trCtx) lit(x *ast.BasicLit, want ltype) string {
 			return fmt.Sprintf("(%d : UInt8)", v)
 		}
 		return fmt.Sprintf("(%d : Int)", v)
+	case token.FLOAT:
+		// an untyped constant such as 1e6 used as an int
+		f, err := strconv.ParseFloat(x.Value, 64)
+		if err != nil || f != float64(int64(f)) || want == tByte {
+			return c.fail("float literal "+x.Value, x)
+		}
+		return fmt.Sprintf("(%d : Int)", int64(f))
 	case token.CHAR:
 		r, _, _, err := strconv.UnquoteChar(x.Value[1:len(x.Value)-1], '\'')
 		if err != nil {
@@ -684,7 +691,7 @@ func (c *trCtx) stmt(w *lw, s ast.Stmt, fd *ast.FuncDecl) {
 	switch x := s.(type) {
 	case *ast.DeclStmt:
 		gd, ok := x.Decl.(*ast.GenDecl)
-		if !ok || gd.Tok != token.VAR {
+		if !ok || (gd.Tok != token.VAR && gd.Tok != token.CONST) {
 			w.line("%s", c.fail("declaration", x))
 			return
 		}
